@@ -9,6 +9,8 @@ import OV.Lemmas.C05Shape
 import OV.Lemmas.C05Algebra
 import OV.Lemmas.C05Matmul
 import OV.Lemmas.C05Expand
+import OV.Model.C05Chain
+import OV.Lemmas.C05Chain
 import OV.Props.C09
 import Mathlib.Order.MinMax
 import Mathlib.Tactic.Order
@@ -1221,6 +1223,312 @@ theorem norm_fusion_prefix_refuted :
     (NormFusion.run { kind := .layerNorm, xDtype := some 1, xRank := some 2, otherRank := some 1 }) = .fire { stashType := some 1 } := by decide
 
 end NormFusion
+
+/-! ## Order inside the shipped rule sets -/
+
+/-- **Order of the default rule set as modelled** (translator tie, regenerated from `_DEFAULT_REWRITE_RULES` on every run): the
+eight order rules stand in the order of `Chain.chainRules`, and every order-sensitive pair keeps its order. -/
+theorem default_order_as_modelled :
+    OV.Gen.C05.defaultRules.filter (fun r => Table.chainRuleNames.contains r) = Table.chainRuleNames ∧
+    ∀ p ∈ Table.orderSensitivePairs, Table.before OV.Gen.C05.defaultRules p.1 p.2 = true := by
+  decide +kernel
+
+/-- **`_cast_constant_of_shape.rules` in the shipped order** (with-value first): whatever the `value` attribute is, the rule set
+emits the fill value of the original `ConstantOfShape` … -/
+theorem ccos_ruleset_sound (value : Option Rat) :
+    More.ccosRuleSet [More.ccosWithValueRule, More.ccosWithoutValueRule] value = some (More.ccosFill value) := by
+  cases value <;> rfl
+
+/-- … and in the other order it does not: the attribute-free pattern wins on a node that carries `value = 3`. -/
+theorem ccos_ruleset_swapped_refuted :
+    ¬ ∀ value, More.ccosRuleSet [More.ccosWithoutValueRule, More.ccosWithValueRule] value = some (More.ccosFill value) := by
+  intro h
+  have := h (some 3)
+  revert this; decide
+
+/-! ## The rule-set driver on one host (`OV/Model/C05Chain.lean`): several rules, one sweep, repeated calls -/
+section RuleSet
+open OV.C05.Order OV.C05.Chain OV.Lemmas.C05Chain
+variable {α : Type} [LinearOrder α]
+
+/-- `FuseSuccessiveClip` fires only when `check` passed, and then with the constants of `build`. -/
+theorem clip_clip_fire (p : ClipClip α) (r : ClipRepl α) (h : p.run = .fire r) : p.check = true ∧ r = p.build := by
+  unfold ClipClip.run at h
+  split at h; · cases h
+  split at h; · cases h
+  split at h; · cases h
+  rename_i _ hc _
+  injection h with h
+  exact ⟨by simpa using hc, h.symm⟩
+
+/-- The same for `Clip(Relu(x))` (`run`) and `Relu(Clip(x))` (`runReluClip`). -/
+theorem relu_clip_fire (zero : α) (p : ReluClip α) (r : ClipRepl α) :
+    (p.run zero = .fire r → p.check = true ∧ r = p.build zero) ∧
+    (p.runReluClip zero = .fire r → p.check = true ∧ r = p.buildReluClip zero) := by
+  constructor <;> intro h
+  · unfold ReluClip.run at h
+    split at h; · cases h
+    split at h; · cases h
+    split at h; · cases h
+    rename_i _ hc _
+    injection h with h
+    exact ⟨by simpa using hc, h.symm⟩
+  · unfold ReluClip.runReluClip at h
+    split at h; · cases h
+    split at h; · cases h
+    split at h; · cases h
+    rename_i _ hc _
+    injection h with h
+    exact ⟨by simpa using hc, h.symm⟩
+
+/-- `successive_relu_rule` as a chain rule: the replacement computes consumer ∘ producer. -/
+theorem chain_rule_relu_relu_sound (zero : α) : RuleSound zero (ruleReluRelu (α := α)) := by
+  intro p c f h x
+  cases p <;> cases c <;> simp [ruleReluRelu] at h
+  subst h
+  simp [COp.eval, successive_relu_sound]
+
+/-- `successive_clip_rule` as a chain rule — also when a bound is a run-time value or an overridable initializer (then the rule
+refuses), for every run-time value of those bounds. -/
+theorem chain_rule_clip_clip_sound (zero : α) : RuleSound zero (ruleClipClip (α := α)) := by
+  intro p c f h x
+  cases p <;> cases c <;> simp [ruleClipClip] at h
+  rename_i a b c d
+  obtain ⟨r, hr, hf⟩ := of_clip_outcome _ _ h
+  obtain ⟨hc, hb⟩ := clip_clip_fire _ _ hr
+  have hs := successive_clip_sound _ hc x
+  subst hf hb
+  unfold ClipClip.check at hc
+  simp only [Bool.and_eq_true] at hc
+  obtain ⟨⟨⟨ha, hb⟩, hcc⟩, hd⟩ := hc
+  simp only [ClipClip.lhs, opd_bound_val _ ha, opd_bound_val _ hb, opd_bound_val _ hcc, opd_bound_val _ hd] at hs
+  simp only [COp.eval, ofOption_val]
+  rw [hs]; rfl
+
+/-- `successive_clip_relu_rule` as a chain rule. -/
+theorem chain_rule_clip_relu_sound (zero : α) : RuleSound zero (ruleClipRelu zero) := by
+  intro p c f h x
+  cases p <;> cases c <;> simp [ruleClipRelu] at h
+  rename_i a b
+  obtain ⟨r, hr, hf⟩ := of_clip_outcome _ _ h
+  obtain ⟨hc, hb⟩ := (relu_clip_fire zero _ r).1 hr
+  have hs := successive_clip_relu_sound zero { a := a.bound, b := b.bound } x
+  subst hf hb
+  unfold ReluClip.check at hc
+  simp only [Bool.and_eq_true] at hc
+  obtain ⟨ha, hb⟩ := hc
+  simp only [ReluClip.lhsClipRelu, opd_bound_val _ ha, opd_bound_val _ hb] at hs
+  simp only [COp.eval, ofOption_val]
+  rw [hs]; rfl
+
+/-- `successive_relu_clip_rule` as a chain rule. -/
+theorem chain_rule_relu_clip_sound (zero : α) : RuleSound zero (ruleReluClip zero) := by
+  intro p c f h x
+  cases p <;> cases c <;> simp [ruleReluClip] at h
+  rename_i a b
+  obtain ⟨r, hr, hf⟩ := of_clip_outcome _ _ h
+  obtain ⟨hc, hb⟩ := (relu_clip_fire zero _ r).2 hr
+  have hs := successive_relu_clip_sound zero { a := a.bound, b := b.bound } hc x
+  subst hf hb
+  unfold ReluClip.check at hc
+  simp only [Bool.and_eq_true] at hc
+  obtain ⟨ha, hb⟩ := hc
+  simp only [ReluClip.lhsReluClip, opd_bound_val _ ha, opd_bound_val _ hb] at hs
+  simp only [COp.eval, ofOption_val]
+  rw [hs]; rfl
+
+/-- `min_min_rule` on binary `Min` nodes with a rank-0 operand (constant: fires; run-time: refuses). -/
+theorem chain_rule_min_min_sound (zero : α) : RuleSound zero (ruleMinMin (α := α)) := by
+  intro p c f h x
+  cases p <;> cases c <;> simp [ruleMinMin] at h
+  rename_i c1 c2
+  cases c1 <;> cases c2 <;>
+    simp [MinMax.run, MOpd.mm, MinMax.consts, MMKind.needScalars, MMConst.isConst, reduceAll, bop, MMConst.rank, MMConst.data, ofMMOutcome] at h
+  subst h
+  simp [COp.eval, MOpd.val, min_assoc]
+
+/-- `max_max_rule`. -/
+theorem chain_rule_max_max_sound (zero : α) : RuleSound zero (ruleMaxMax (α := α)) := by
+  intro p c f h x
+  cases p <;> cases c <;> simp [ruleMaxMax] at h
+  rename_i c1 c2
+  cases c1 <;> cases c2 <;>
+    simp [MinMax.run, MOpd.mm, MinMax.consts, MMKind.needScalars, MMConst.isConst, reduceAll, bop, MMConst.rank, MMConst.data, ofMMOutcome] at h
+  subst h
+  simp [COp.eval, MOpd.val, max_assoc]
+
+/-- `max_min_rule`: `Min(Max(x, lb), ub) → Clip(x, lb, ub)` — no bound test needed. -/
+theorem chain_rule_max_min_sound (zero : α) : RuleSound zero (ruleMaxMin (α := α)) := by
+  intro p c f h x
+  cases p <;> cases c <;> simp [ruleMaxMin] at h
+  rename_i c1 c2
+  cases c1 <;> cases c2 <;>
+    simp [MinMax.run, MOpd.mm, MinMax.consts, MMKind.needScalars, MMConst.isConst, MMConst.isScalar, MinMax.rankBad, homogeneous, MinMax.lbs, MinMax.ubs, flatVals, flatReduce, MMConst.rank, MMConst.data, ofMMOutcome] at h
+  subst h
+  simp [COp.eval, MOpd.val, clip, Opd.val?]
+
+/-- `min_max_rule`: `Max(Min(x, ub), lb) → Clip(x, lb, ub)` fires only when `lb ≤ ub`, which is what makes it sound. -/
+theorem chain_rule_min_max_sound (zero : α) : RuleSound zero (ruleMinMax (α := α)) := by
+  intro p c f h x
+  cases p <;> cases c <;> simp [ruleMinMax] at h
+  rename_i c1 c2
+  cases c1 <;> cases c2 <;>
+    simp [MinMax.run, MOpd.mm, MinMax.consts, MMKind.needScalars, MMConst.isConst, MMConst.isScalar, MinMax.rankBad, homogeneous, MinMax.lbs, MinMax.ubs, flatVals, flatReduce, MMConst.rank, MMConst.data, ofMMOutcome] at h
+  split_ifs at h with hlt
+  simp at h
+  subst h
+  simp only [COp.eval, MOpd.val, clip, Opd.val?]
+  rw [max_min_distrib_right, max_eq_left (not_lt.mp hlt)]
+
+/-- All eight rules of `_min_max_to_clip.rules` + `_fuse_relus_clips.rules` are sound as chain rules. -/
+theorem chain_rules_sound (zero : α) : ∀ r ∈ chainRules zero, RuleSound zero r := by
+  intro r hr
+  simp only [chainRules, List.mem_cons, List.not_mem_nil, or_false] at hr
+  rcases hr with rfl | rfl | rfl | rfl | rfl | rfl | rfl | rfl
+  · exact chain_rule_min_min_sound zero
+  · exact chain_rule_max_max_sound zero
+  · exact chain_rule_min_max_sound zero
+  · exact chain_rule_max_min_sound zero
+  · exact chain_rule_clip_relu_sound zero
+  · exact chain_rule_relu_clip_sound zero
+  · exact chain_rule_relu_relu_sound zero
+  · exact chain_rule_clip_clip_sound zero
+
+/-- On chain hosts (binary Min/Max, typed values) none of the Min/Max rules can raise: the `raise` outcome of `MinMax.run`
+is unreachable, so mapping it to "no rewrite" in `ofMMOutcome` loses nothing. -/
+theorem chain_rules_never_raise (k : MMKind) (c1 c2 : MOpd α) :
+    MinMax.run { kind := k, first := [c1.mm], second := [c2.mm], xRank := some 0 } ≠ .raises := by
+  cases k <;> cases c1 <;> cases c2 <;>
+    simp [MinMax.run, MOpd.mm, MinMax.consts, MMKind.needScalars, MMConst.isConst, MMConst.isScalar, MinMax.rankBad, homogeneous,
+      MinMax.lbs, MinMax.ubs, flatVals, flatReduce, reduceAll, MMConst.rank, MMConst.data]
+  split_ifs <;> simp
+
+omit [LinearOrder α] in
+/-- Commit c0ccb25 (finding C04-D14, fixed): the three Clip-producing relu/clip rules **never raise** any more — whatever is
+(un)known about element types — … -/
+theorem clip_rules_never_raise [Min α] [Max α] (zero : α) :
+    (∀ p : ClipClip α, p.run ≠ .raises) ∧ (∀ p : ReluClip α, p.run zero ≠ .raises ∧ p.runReluClip zero ≠ .raises) := by
+  refine ⟨fun p => ?_, fun p => ⟨?_, ?_⟩⟩
+  · unfold ClipClip.run; split_ifs <;> simp
+  · unfold ReluClip.run; split_ifs <;> simp
+  · unfold ReluClip.runReluClip; split_ifs <;> simp
+
+omit [LinearOrder α] in
+/-- … and they fire only when the element type of the first Clip is known: its input is typed or one of its own bounds is a
+constant tensor (`_clip_dtype`); an untyped input with both bounds absent is refused. -/
+theorem clip_rules_fire_need_dtype [Min α] [Max α] (zero : α) :
+    (∀ (p : ClipClip α) r, p.run = .fire r → clipDtypeKnown p.dtype1 p.a p.b = true) ∧
+    (∀ (p : ReluClip α) r, (p.run zero = .fire r ∨ p.runReluClip zero = .fire r) → clipDtypeKnown p.dtype1 p.a p.b = true) ∧
+    (∀ (p : ClipClip α), p.dtype1 = false → p.a = .absent → p.b = .absent → p.run = .nofire) := by
+  refine ⟨fun p r h => ?_, fun p r h => ?_, fun p h1 ha hb => ?_⟩
+  · unfold ClipClip.run at h; split_ifs at h with _ _ hd; simpa using hd
+  · rcases h with h | h
+    · unfold ReluClip.run at h; split_ifs at h with _ _ hd; simpa using hd
+    · unfold ReluClip.runReluClip at h; split_ifs at h with _ _ hd; simpa using hd
+  · unfold ClipClip.run clipDtypeKnown; simp [h1, ha, hb, Bound.hasTensor]
+
+/-- **Any rule set of sound rules, one `apply_to_model`**: for every list of rules (any order, any length) each of which is
+sound on its own, every chain (any length, any placement of shared intermediates) and every input, the sweep of
+`_apply_to_graph_or_function` — first matching rule wins at each node, the replacement is visited again, a shared producer
+blocks the match — leaves the final output *and every shared intermediate* unchanged. -/
+theorem ruleset_sweep_sound (zero : α) (rules : List (Rule α)) (hr : ∀ r ∈ rules, RuleSound zero r)
+    (chain : List (Node α)) (x : α) : outs zero (sweep rules chain) x = outs zero chain x := by
+  unfold sweep
+  simpa using sweepAcc_sound zero rules hr chain ([], 0) x
+
+omit [LinearOrder α] in
+/-- The returned `count` is exactly the number of nodes that disappeared (each of these rewrites replaces two nodes by one). -/
+theorem ruleset_count (rules : List (Rule α)) (chain : List (Node α)) :
+    (sweep rules chain).length + count rules chain = chain.length := by
+  unfold sweep count
+  simpa using sweepAcc_count rules chain ([], 0)
+
+/-- **The shipped order rules on one host**: any selection of the eight rules in any order (in particular the order of
+`_DEFAULT_REWRITE_RULES`) preserves every observable value of every chain, for every input and every run-time value of the
+non-constant operands. -/
+theorem chain_sweep_sound (zero : α) (rules : List (Rule α)) (hsub : ∀ r ∈ rules, r ∈ chainRules zero)
+    (chain : List (Node α)) (x : α) : outs zero (sweep rules chain) x = outs zero chain x :=
+  ruleset_sweep_sound zero rules (fun r h => chain_rules_sound zero r (hsub r h)) chain x
+
+/-- **Every history of calls**: `k` successive `apply_to_model` calls of the same rule set preserve the outputs, for all `k`. -/
+theorem chain_apply_history_sound (zero : α) (rules : List (Rule α)) (hr : ∀ r ∈ rules, RuleSound zero r) (k : Nat) :
+    ∀ (chain : List (Node α)) (x : α), outs zero (Nat.iterate (sweep rules) k chain) x = outs zero chain x := by
+  induction k with
+  | zero => intro chain x; rfl
+  | succ k ih => intro chain x; rw [Nat.iterate, ih, ruleset_sweep_sound zero rules hr]
+
+omit [LinearOrder α] in
+/-- **The second call on a re-used rule set rewrites nothing** (any rules): a sweep ends in a fixpoint, because every adjacent
+pair of the result was tested when its later node was visited or created. -/
+theorem ruleset_second_call_noop (rules : List (Rule α)) (chain : List (Node α)) :
+    sweep rules (sweep rules chain) = sweep rules chain ∧ count rules (sweep rules chain) = 0 :=
+  sweep_fixpoint rules chain
+
+/-- The eight target patterns are pairwise disjoint: rule `i` can only fire on a (producer, consumer) pair of slot `i`. -/
+theorem chain_rules_slot (zero : α) (i : Nat) (hi : i < (chainRules zero).length) (p c f : COp α)
+    (h : (chainRules zero)[i] p c = some f) : pairSlot p c = some i := by
+  simp only [chainRules, List.length_cons, List.length_nil] at hi
+  match i, hi with
+  | 0, _ => cases p <;> cases c <;> simp_all [chainRules, ruleMinMin, pairSlot]
+  | 1, _ => cases p <;> cases c <;> simp_all [chainRules, ruleMaxMax, pairSlot]
+  | 2, _ => cases p <;> cases c <;> simp_all [chainRules, ruleMinMax, pairSlot]
+  | 3, _ => cases p <;> cases c <;> simp_all [chainRules, ruleMaxMin, pairSlot]
+  | 4, _ => cases p <;> cases c <;> simp_all [chainRules, ruleClipRelu, pairSlot]
+  | 5, _ => cases p <;> cases c <;> simp_all [chainRules, ruleReluClip, pairSlot]
+  | 6, _ => cases p <;> cases c <;> simp_all [chainRules, ruleReluRelu, pairSlot]
+  | 7, _ => cases p <;> cases c <;> simp_all [chainRules, ruleClipClip, pairSlot]
+
+/-- **First-match-wins does not matter for these rules**: for every permutation of the eight rules the driver picks the same
+replacement at every node … -/
+theorem chain_first_match_order_irrelevant (zero : α) (rules : List (Rule α)) (hperm : rules.Perm (chainRules zero))
+    (p c : COp α) : firstMatch rules p c = firstMatch (chainRules zero) p c := by
+  have hfun : ∀ r1 ∈ chainRules zero, ∀ r2 ∈ chainRules zero, ∀ f1 f2, r1 p c = some f1 → r2 p c = some f2 → f1 = f2 := by
+    intro r1 h1 r2 h2 f1 f2 e1 e2
+    obtain ⟨i, hi, rfl⟩ := List.getElem_of_mem h1
+    obtain ⟨j, hj, rfl⟩ := List.getElem_of_mem h2
+    have s1 := chain_rules_slot zero i hi p c f1 e1
+    have s2 := chain_rules_slot zero j hj p c f2 e2
+    have : i = j := by rw [s1] at s2; exact Option.some.inj s2
+    subst this
+    rw [e1] at e2; exact Option.some.inj e2
+  have hfun' : ∀ r1 ∈ rules, ∀ r2 ∈ rules, ∀ f1 f2, r1 p c = some f1 → r2 p c = some f2 → f1 = f2 :=
+    fun r1 h1 r2 h2 => hfun r1 (hperm.mem_iff.mp h1) r2 (hperm.mem_iff.mp h2)
+  apply Option.ext
+  intro f
+  rw [firstMatch_eq_some_iff rules p c hfun' f, firstMatch_eq_some_iff _ p c hfun f]
+  constructor <;> rintro ⟨r, hm, hr⟩
+  · exact ⟨r, hperm.mem_iff.mp hm, hr⟩
+  · exact ⟨r, hperm.mem_iff.mpr hm, hr⟩
+
+/-- … hence the rewritten chain and the count do not depend on the order of the rules in the set. -/
+theorem chain_sweep_order_irrelevant (zero : α) (rules : List (Rule α)) (hperm : rules.Perm (chainRules zero))
+    (chain : List (Node α)) :
+    sweep rules chain = sweep (chainRules zero) chain ∧ count rules chain = count (chainRules zero) chain := by
+  unfold sweep count
+  rw [sweepAcc_congr rules (chainRules zero) (chain_first_match_order_irrelevant zero rules hperm)]
+  exact ⟨rfl, rfl⟩
+
+/-- Order *does* matter for rule sets in general (which is why the model keeps `firstMatch`): two sound rules with the same
+target, different replacements. -/
+theorem first_match_wins_in_general :
+    ∃ (r1 r2 : Rule Int) (p c : COp Int), firstMatch [r1, r2] p c ≠ firstMatch [r2, r1] p c := by
+  refine ⟨fun _ _ => some .relu, fun _ _ => some (.clip (.const 0) .absent), .relu, .relu, ?_⟩
+  decide
+
+-- non-vacuity / concrete sweeps (Int, zero = 0)
+-- Relu; Min(·,-2); Max(·,-5): (Relu, Min) has no rule, Max∘Min becomes Clip(-5,-2), which is visited again and fused with Relu: count 2
+example : sweep (chainRules (0 : Int)) [⟨.relu, false⟩, ⟨.mn (.const (-2)), false⟩, ⟨.mx (.const (-5)), true⟩]
+      = [⟨.clip (.const 0) (.const (-2)), true⟩] ∧
+    count (chainRules (0 : Int)) [⟨.relu, false⟩, ⟨.mn (.const (-2)), false⟩, ⟨.mx (.const (-5)), true⟩] = 2 := by decide
+-- a shared intermediate blocks one fusion; a run-time bound blocks another
+example : sweep (chainRules (0 : Int)) [⟨.clip (.const 0) (.const 5), false⟩, ⟨.clip (.const 1) (.const 4), true⟩, ⟨.clip (.const 2) (.const 3), false⟩,
+        ⟨.clip (.dyn 7) .absent, false⟩, ⟨.relu, true⟩]
+      = [⟨.clip (.const 1) (.const 4), true⟩, ⟨.clip (.const 2) (.const 3), false⟩, ⟨.clip (.dyn 7) .absent, false⟩, ⟨.relu, true⟩] := by decide
+-- a reversed rule list is a permutation of the eight rules
+example : ((chainRules (0 : Int)).reverse).Perm (chainRules 0) := List.reverse_perm _
+example : ∀ r ∈ [ruleClipClip (α := Int), ruleMinMax], r ∈ chainRules (0 : Int) := by simp [chainRules]
+
+end RuleSet
 
 /-! ## Non-vacuity: concrete instances satisfying the hypotheses of the theorems above -/
 section NonVacuity
